@@ -274,6 +274,18 @@ def ipca(B, U_a, l_a, n_a, m_a=None, f=1.0, eps=1e-10, centre=None):
     .. [1] David Ross, Jongwoo Lim, Ruei-Sung Lin, Ming-Hsuan Yang.
        "Incremental Learning for Robust Visual Tracking". IJCV, 2007.
     """
+    # machine epsilon of the least precise floating point operand (the new
+    # data are promoted to double precision below, the rounding noise they
+    # carry is not)
+    precision = max(
+        [np.finfo(np.float64).eps]
+        + [
+            np.finfo(a.dtype).eps
+            for a in (B, U_a, l_a)
+            if np.issubdtype(a.dtype, np.inexact)
+        ]
+    )
+
     # multiply current eigenvalues by total number of samples and square
     # root them to obtain singular values of the original data.
     s_a = np.sqrt((n_a - 1) * l_a)
@@ -327,8 +339,14 @@ def ipca(B, U_a, l_a, n_a, m_a=None, f=1.0, eps=1e-10, centre=None):
 
     # compute new eigenvalues
     l = s_tilde**2 / (n - 1)
-    # keep only positive eigenvalues within tolerance
-    l = l[l > eps]
+    # keep only positive eigenvalues within tolerance. The tolerance can not
+    # be tighter than what the precision of the operands delivers: an
+    # eigenvalue that is exactly zero (there is always one for a centred
+    # update) comes out as rounding noise which, for single precision data or
+    # a single precision model, is far above the default eps. Use at least the
+    # criterion of eigenvalue_decomposition (the batch model): n * machine
+    # epsilon, relative to the largest eigenvalue
+    l = l[l > max(eps, max(R.shape) * precision * l.max())]
 
     U = Vt_tilde.dot(np.vstack((U_a, B_tilde)))[: len(l), :]
 
